@@ -6,11 +6,11 @@ import TapkeeVerif.Model.DriverUtil
 Driver for C05 (MDS / Kernel PCA / Isomap with k = N−1).  One judge line in, one verdict line out.
 
 in : `mds method=mds|kpca|isomap N=4 d=2 solver=dense|rand in=dist|kern|pts D=3 exact=1 lowrank=0 data=r;r;…
-          pre=<N rows> V=<N rows of d> lam=<d> sq=<d> Y=<N rows of d>`
+          pre=<N rows> V=<N rows of d> lam=<d> Y=<N rows of d> nancols=<list>`
      `data` : `in=dist` the N×N matrix of callback distances, `in=kern` the N×N kernel matrix,
               `in=pts` N points with D coordinates (Euclidean distance / linear kernel callbacks);
      `pre`  : the matrix the public API handed to the eigensolver (hook), `V`,`lam` what the solver returned,
-     `sq`   : `sqrt(lam j)` as evaluated by the harness, `Y` the returned embedding.
+     `Y` the returned embedding (`nancols` = its columns that are NaN).
 out: `pre=… eig=… post=… y=… dist=… cmp=exact:<n>,approx:<m>`
 All tolerances are relative `2^-30` (declared below) and decided on exact rationals.
 -/
@@ -58,8 +58,8 @@ def answerMds (fs : List (String × String)) : String :=
     | none => "bad-data"
     | some B =>
       match get "pre" >>= parseMat N N, get "V" >>= parseMat N d, get "lam" >>= parseVec d,
-            get "sq" >>= parseVec d, get "Y" >>= parseMat N d with
-      | some pre, some V, some lam, some sq, some Y =>
+            get "Y" >>= parseMat N d with
+      | some pre, some V, some lam, some Y =>
         let scaleB := maxAbsM B.get
         let lamMax := maxAbsM (vecAsMat lam.get)
         let scale := if scaleB < lamMax then lamMax else scaleB
@@ -69,17 +69,39 @@ def answerMds (fs : List (String × String)) : String :=
         -- 2. (V, lam) is a top-d eigensystem of the MODEL's matrix
         let ce := certify B.get V.get lam.get scale εrel bracket
         -- 3. post-processing: sq j ≥ 0, sq j² = lam j, Y = V·diag sq
+        --    `s j` is read off the embedding itself (ratio at the largest entry of column j of V); the contract is
+        --    `s j ≥ 0 ∧ s j ² = max (lam j) 0` (the PSD factor keeps the positive part of the spectrum);
+        --    columns that came back NaN are listed by the harness side in `nancols`
+        let nanCols := ((get "nancols").bind (parseNats · ",")).getD []
+        let sD : DVec d Rat := DVec.ofFn fun j =>
+          let istar := (List.finRange N).foldl (fun (acc : Option (Fin N)) i =>
+            match acc with
+            | none => some i
+            | some a => if absR (V.get a j) < absR (V.get i j) then some i else some a) none
+          match istar with
+          | some i => if V.get i j == 0 then 0 else Y.get i j / V.get i j
+          | none => 0
+        let lamPlus : Vec d Rat := fun j => if lam.get j < 0 then 0 else lam.get j
         let sqBad := (List.finRange d).any fun j =>
-          sq.get j < 0 || absR (sq.get j * sq.get j - lam.get j) > εtight * (absR (lam.get j))
+          !nanCols.contains j.1 &&
+            (sD.get j < 0 || absR (sD.get j * sD.get j - lamPlus j) > εtight * (if lamMax < 1 then 1 else lamMax))
         let ymax := maxAbsM Y.get
-        let cpost := cmpMat Y.get (post V.get sq.get) (εtight * ymax)
-        let postTxt := if sqBad then "FAIL-sqrt-contract" else cpost.show
+        let Ymasked : Mat N d Rat := fun i j => if nanCols.contains j.1 then 0 else Y.get i j
+        let Pmasked : Mat N d Rat := fun i j => if nanCols.contains j.1 then 0 else post V.get sD.get i j
+        let cpost := cmpMat Ymasked Pmasked (εtight * (if ymax < 1 then 1 else ymax))
+        let postTxt :=
+          if sqBad then "FAIL-sqrt-contract"
+          else if !nanCols.isEmpty && !cpost.isBad then "nan-columns:" ++ cpost.show
+          else cpost.show
         -- 4. the property on Y itself: YᵀY = diag lam, B Y = Y diag lam (columns span the leading eigenspace)
-        let g := Cert.maxAbs (Cert.gramDefect Y.get lam.get)
-        let ry := Cert.residMax B.get Y.get lam.get
+        let g := Cert.maxAbs (Cert.gramDefect Ymasked lamPlus)
+        let ry := Cert.residMax B.get Ymasked lam.get
         let yscale := if ymax < 1 then 1 else ymax
+        let nanTiny := nanCols.all fun j => if h : j < d then absR (lam.get ⟨j, h⟩) ≤ εrel * scale else true
         let yTxt :=
-          if g > εrel * scale then s!"FAIL-gram:{showMag g}>{showMag (εrel * scale)}"
+          if !nanCols.isEmpty then
+            (if nanTiny then "FAIL-nan-zero-eigenvalue" else "FAIL-nan-negative-eigenvalue") ++ s!":cols{nanCols.length}"
+          else if g > εrel * scale then s!"FAIL-gram:{showMag g}>{showMag (εrel * scale)}"
           else if ry > εrel * scale * yscale then s!"FAIL-span:{showMag ry}"
           else s!"ok:gram{showMag g}:span{showMag ry}"
         -- 5. exact recovery of the pairwise distances on inputs of rank ≤ d
@@ -99,7 +121,7 @@ def answerMds (fs : List (String × String)) : String :=
         let nexact := (if cpre.isExact then 1 else 0) + (if cpost.isExact then 1 else 0)
         let napprox := (if cpre.isExact then 0 else 1) + (if cpost.isExact then 0 else 1) + 4
         s!"pre={preTxt} eig={ce.text} post={postTxt} y={yTxt} dist={distTxt} cmp=exact:{nexact},approx:{napprox}"
-      | _, _, _, _, _ => "bad-observation"
+      | _, _, _, _ => "bad-observation"
   | _, _, _, _, _ => "bad-case"
 
 /-- `premodel …` : print the model's pre-matrix (used by `check.py replay` and for diagnostics) -/
